@@ -52,7 +52,9 @@ func ParseMediaType(s string) (MediaType, error) {
 	}
 	values = strings.Split(values[0], "/")
 
-	if len(values) == 1 {
+	// Both the type and the subtype are required: a media type without them would be
+	// encoded as an empty string, which cannot be decoded again.
+	if len(values) == 1 || values[0] == "" || values[1] == "" {
 		return MediaType{}, errors.New("invalid media type")
 	}
 
